@@ -10,7 +10,7 @@ META = {
         "technique": "executable TLA+ acceptance specifications (hex address lengths, port-range grammar, header sizes) and generic "
                      "totality / round-trip clauses; TLC enumerates every class word up to the length bound over per-parser alphabets of "
                      "boundary segments and is the oracle over the recorded calls of the real parsers (overflow checks on, panics caught)",
-        "text": "TLC enumerates all words of at most 3-4 segments (thorough 4-5) over per-parser alphabets holding the boundary members of "
+        "text": "TLC enumerates all words of at most 2-4 segments (thorough 3-4) over per-parser alphabets holding the boundary members of "
                 "the statement (empty, one short, exact, one long, non-hex, multi-byte and non-UTF-8, 0 / 65535 / 65536, reversed and "
                 "degenerate ranges, huge numbers, truncated / foreign / wrong-typed files, huge msgpack length prefixes), checks the "
                 "specification's own laws on each, and writes the case list. Every case is concretised into up to 8 members and run "
@@ -125,7 +125,7 @@ def run(prop, tier, replay=None):
     v.cov["by_source"] = by_src
     v.cov["rule"] = ("a case = one class word (sequence of <= %s segments of the parser's alphabet); every word is enumerated by TLC and "
                      "concretised into up to 8 members (2-4 for file / record / amount / multiaddress words, 1 per password variant for "
-                     "decrypt); an evaluation = one real call; distinct = distinct (parser, input)" % ("4-5" if thorough else "3-4"))
+                     "decrypt); an evaluation = one real call; distinct = distinct (parser, input)" % ("3-4" if thorough else "2-4"))
     v.cov["samples"] = [{k: e[k] for k in ("ev", "parser", "word", "text", "head", "len", "out", "rt", "src") if k in e}
                         for e in (events[:2] + events[len(events) // 2: len(events) // 2 + 2] + events[-2:])]
     v.cov["exhaustive"] = False
